@@ -245,7 +245,11 @@ def explain (h : List Obs) : Except Err (Nat × List String) := do
 
 end LCx
 
-/-! ### ResourceManager (instances are `id + 1`; `0` is the error outcome) -/
+/-! ### ResourceManager and the users of the same pattern (instances are `id + 1`; `0` is the error outcome)
+`cfg` says which user the section ran (`Cfg`): with `cfg.pre` every call first looks the key up in front of the
+flight (rows p0…p3).  The lazy strategy additionally delays the *store* of a successful `create` (rows g7, g8, m2) until
+the leader is forced to delete: calls that were observed to share the leader's flight do their front lookup before it
+(a miss), calls that come later find the stored instance (a direct hit, or the re-check inside their own flight). -/
 namespace RMx
 open RM
 
@@ -272,13 +276,24 @@ def advs (line : Nat) (g : Tid) (ws : List PC) : M Unit := do
 
 def pcOf (g : Tid) : M PC := do return (← get).s.pc g
 
+/-- the lookup in front of the flight misses (`cfg.pre`; nothing to do otherwise). -/
+def preMiss (line : Nat) (g : Tid) : M Unit := do
+  if (← pcOf g) = .p0 then
+    tag "rm-model-front-lookup-miss"
+    advs line g [.p1, .p2, .p3, .l0]
+
+/-- leader `p` (waiting lazily at `g6`: create succeeded, not stored yet; or at `d0`) stores, deletes its entry and
+releases the wait group; the joiners enter first. -/
 def forceDelete (line : Nat) (p : Tid) (pid : Nat) : M Unit := do
   let st ← get
-  if (← pcOf p) = .d0 then
+  if (← pcOf p) = .d0 ∨ (← pcOf p) = .g6 then
     for (g, o) in st.cur do
-      -- (a joiner that panicked joins the first panicking flight that is deleted while it is invoked)
-      if (← pcOf g) = .l0 ∧ !o.ran ∧ (source o = some pid ∨ (o.panicked ∧ st.s.pn p ∧ st.s.key g = st.s.key p)) then
+      -- (a joiner that panicked / got the nil value joins the first panicking flight that is deleted while it is invoked)
+      if ((← pcOf g) = .l0 ∨ (← pcOf g) = .p0) ∧ !o.ran ∧ g ≠ p ∧
+          (source o = some pid ∨ ((o.panicked ∨ zeroJoiner o) ∧ st.s.pn p ∧ st.s.key g = st.s.key p)) then
+        preMiss line g
         advs line g [.l1, .w0, .w1]
+    if (← pcOf p) = .g6 then advs line p [.g7, .g8, .m2, .d0]
     advs line p [.d1, .d2, .d3, (if (← get).s.pn p then .px else .r0)]
   else if (← pcOf p) = .r0 ∨ (← pcOf p) = .px then pure ()
   else throw (line, s!"model: the flight of call {pid} (goroutine {p}) is still running ({repr (← pcOf p)})",
@@ -298,40 +313,51 @@ def onEvent (e : Ev) : M Unit := do
   let ln := o.line
   match e.kind with
   | .inv =>
-    adv ln g o.key .l0
+    let st ← get
+    adv ln g o.key (if st.s.cfg.pre then .p0 else .l0)
     modify fun st => { st with cur := st.cur.set g o }
   | .fs =>
     match ← leaderOfKey o.key with
     | some (p, pid) => forceDelete ln p pid
     | none => pure ()
+    preMiss ln g
     -- leader; the map has no instance (else `create` would not run)
     advs ln g [.l1, .n0, .n1, .n2, .n3, .g0, .g1, .g2, .g3, .g4]
     if o.spanic then tag "rm-model-create-panics"; adv ln g 1 .gp else adv ln g 0 .g5
   | .fe =>
-    if o.spanic then pure ()
-    else if o.serr then adv ln g 0 .m2
+    if o.spanic then adv ln g 0 .d0
+    else if o.serr then
+      adv ln g 0 .m2
+      adv ln g 0 .d0
     else
+      -- create succeeded; the store is placed lazily (forceDelete)
       adv ln g (o.id + 1) .g6
-      advs ln g [.g7, .g8, .m2]
-    adv ln g 0 .d0
   | .ret =>
+    let mut zeroOk := false
     if o.ran then
       forceDelete ln g o.id
     else
+      if (← pcOf g) = .p0 then
+        let st ← get
+        if (st.s.res o.key).isSome then
+          tag "rm-model-front-lookup-hit"
+          advs ln g [.p1, .p2, .p3]
+        else preMiss ln g
       if (← pcOf g) = .l0 then
         match ← leaderOfKey o.key with
         | some (p, pid) =>
           -- a flight is registered: join it if that explains the result, else let it finish first
           let po := (← get).cur.lookup p
           let explains : Bool := source o == some pid || (o.val.isSome && (match po with | some q => !q.ran | none => false))
-            || (o.panicked && (match po with | some q => q.spanic | none => false))
+            || ((o.panicked || zeroJoiner o) && (match po with | some q => q.spanic | none => false))
           if explains then
             tag "rm-model-joined-flight"
             advs ln g [.l1, .w0, .w1]
           else
             forceDelete ln p pid
         | none => pure ()
-      if (← pcOf g) = .l0 then
+      if (← pcOf g) = .p3 then pure ()
+      else if (← pcOf g) = .l0 then
         -- own flight: the instance must already be in the map
         tag "rm-model-own-flight-found-in-map"
         advs ln g [.l1, .n0, .n1, .n2, .n3, .g0, .g1, .g2, .g3, .m2, .d0, .d1, .d2, .d3, .r0]
@@ -342,6 +368,10 @@ def onEvent (e : Ev) : M Unit := do
           let p := st.s.leader c
           forceDelete ln p (((st.cur.lookup p).map (·.id)).getD 0)
         adv ln g 0 .w2
+        let st ← get
+        -- without the type assertion a joiner of a panicked flight returns the nil value (collection.Cache.Take)
+        zeroOk := st.s.pan (st.s.reg g) && !st.s.cfg.asrt
+        if zeroOk then tag "rm-model-joiner-of-panicked-flight-returns-nil"
     let nrets := (← get).s.rets.length
     adv ln g 0 .idle
     let st ← get
@@ -354,13 +384,15 @@ def onEvent (e : Ev) : M Unit := do
       | none => throw (ln, "model: no return recorded", "return")
       | some r =>
         let want : Option Nat := if r.val = 0 then none else some (r.val - 1)
-        if want ≠ o.val ∨ (r.val = 0) ≠ o.err.isSome then
+        if zeroOk then
+          if o.val.isSome ∨ o.err.isSome then throw (ln, "model returns (nil, nil)", s!"val={o.val} err={o.err}")
+        else if want ≠ o.val ∨ (r.val = 0) ≠ o.err.isSome then
           throw (ln, s!"model returns instance={want}", s!"val={o.val} err={o.err}")
     modify fun st => { st with cur := st.cur.del g }
 
-def explain (inj : List (Nat × Nat)) (h : List Obs) : Except Err (Nat × List String) := do
+def explain (cfg : Cfg) (inj : List (Nat × Nat)) (h : List Obs) : Except Err (Nat × List String) := do
   -- pre-registered resources (`Inject` before the goroutines start); instance `n` is `n + 1` in the model
-  let mut s0 := init
+  let mut s0 := init cfg
   for (k, n) in inj do
     match RM.inject s0 k (n + 1) with
     | some s1 => s0 := s1
@@ -372,10 +404,20 @@ def explain (inj : List (Nat × Nat)) (h : List Obs) : Except Err (Nat × List S
 
 end RMx
 
-def explain (mode : String) (inj : List (Nat × Nat)) (h : List Obs) : Except Err (Nat × List String) :=
+/-- which instance of the pattern a section ran (`via` of the section header; empty: ResourceManager.GetResource). -/
+def cfgOfVia (via : String) : Option Cfg :=
+  if via = "" then some .getResource
+  else if via = "collection.Cache.Take" then some .cacheTake
+  else if via = "cacheNode.Take" then some .doTake
+  else none
+
+def explain (mode via : String) (inj : List (Nat × Nat)) (h : List Obs) : Except Err (Nat × List String) :=
   if mode = "sf" then SFx.explain h
   else if mode = "lc" then LCx.explain h
-  else if mode = "rm" then RMx.explain inj h
+  else if mode = "rm" then
+    match cfgOfVia via with
+    | some cfg => RMx.explain cfg inj h
+    | none => .error (0, "unknown user of the pattern", via)
   else .error (0, "unknown mode", mode)
 
 end GoZero.C07.Explain
